@@ -266,12 +266,14 @@ fn cached(tier: Tier) -> &'static (Vec<(Vec<Op>, Op)>, usize) {
 // ------------------------------------------------------------ real objects
 
 const V1: &str = "\
+const KZ: Z = mkz();
 const KT: Tr = mk(901);
 const KI: u64 = 11;
 fn f(x: u64) -> u64 { x + KI + cap() + cap2() - 801 + RC.payload() + KT.payload() }
 ";
 const V2: &str = "\
 const KT: Tr = mk(902);
+const KZ: Z = mkz();
 const KI: u64 = 22;
 fn helper(x: u64) -> u64 { x * 2 }
 fn f(x: u64) -> u64 { helper(x) + KI + cap() + cap2() - 801 + RC.payload() + KT.payload() }
@@ -414,7 +416,13 @@ fn replay(hist: &[Op], last: Op) -> Result<String, (String, Value)> {
         }
         model.apply(*op);
         // invariants
-        let (live, _z, anomalies) = host::ledger_snapshot();
+        let (live, z, anomalies) = host::ledger_snapshot();
+        // every live module holds one zero-sized tracked constant (KZ)
+        let want_z = (0..model.modules.len()).filter(|m| model.module_alive(*m)).count() as i64;
+        if z as i64 != want_z {
+            let class = if (z as i64) < want_z { "released-too-early" } else { "not-released" };
+            return Err((class.into(), json!({"step": step, "live_zero_sized_constants": z, "model": want_z})));
+        }
         let mut got: Vec<u64> = live.iter().map(|x| x.1).collect();
         got.sort();
         let want = model.live_payloads();
